@@ -152,17 +152,17 @@ RelocFrom(T, x, c) ==
        IF r.res \in {"fail", "crash"} THEN r
        ELSE LET r2 == RelocFrom(r.T, nx, c) IN [T |-> r2.T, res |-> Worse(r.res, r2.res), cnt |-> r.cnt + r2.cnt]
 
-RECURSIVE Passes(_, _, _, _, _)
+RECURSIVE Passes(_, _, _, _, _)                \* result [T, res, n]: n = merge/relocate passes taken (p.resolvePasses)
 Passes(T, tab, pass, relocated, bug) ==
   LET c == [tab |-> tab, pass |-> pass, relocated |-> relocated, bug |-> bug]
       m == MergeNode(T, 1, c) IN
-  IF m.res = "fail" THEN [T |-> m.T, res |-> "error"]
+  IF m.res = "fail" THEN [T |-> m.T, res |-> "error", n |-> pass]
   ELSE LET r == RelocNode(m.T, 1, c) IN
-       IF r.res = "fail" THEN [T |-> r.T, res |-> "error"]
-       ELSE IF r.res = "crash" THEN [T |-> r.T, res |-> "crash"]
-       ELSE IF m.res = "ok" /\ r.res = "ok" THEN [T |-> r.T, res |-> "ok"]
-       ELSE IF pass > MaxResolvePasses + 3 THEN [T |-> r.T, res |-> "error"]
-       ELSE Passes(r.T, tab, pass + 1, r.cnt, bug)
+       IF r.res = "fail" THEN [T |-> r.T, res |-> "error", n |-> pass]
+       ELSE IF r.res = "crash" THEN [T |-> r.T, res |-> "crash", n |-> pass]
+       ELSE IF m.res = "ok" /\ r.res = "ok" THEN [T |-> r.T, res |-> "ok", n |-> pass]
+       ELSE IF pass > MaxResolvePasses + 3 THEN [T |-> r.T, res |-> "error", n |-> pass]
+       ELSE Passes(r.T, tab, pass + 1, IF bug = "CountersResetPerPass" THEN 0 ELSE r.cnt, bug)
 
 (* ---- projection of the tree (as the Go harness projects the real one) *)
 RECURSIVE PathOf(_, _)
@@ -195,14 +195,15 @@ CallsOfTable(T, tab, bug) ==
 RECURSIVE BuildFrom(_, _, _, _, _)
 BuildFrom(bs, toks, i, tab, bug) == IF toks[i].k = "endtable" THEN [bs |-> bs, next |-> i + 1]
                                     ELSE BuildFrom(BuildTok(bs, toks[i], tab, bug), toks, i + 1, tab, bug)
-RECURSIVE ParseFrom(_, _, _, _, _, _)
-ParseFrom(T, toks, i, tab, calls, bug) ==
-  IF i > Len(toks) THEN [ns |-> Proj(T, 1, <<>>), calls |-> calls]
+RECURSIVE ParseFrom(_, _, _, _, _, _, _)
+ParseFrom(T, toks, i, tab, calls, np, bug) ==
+  IF i > Len(toks) THEN [ns |-> Proj(T, 1, <<>>), calls |-> calls, passes |-> np]
   ELSE LET b  == BuildFrom([T |-> T, stack |-> <<1>>], toks, i, tab, bug)
            early == CallsOfTable(b.bs.T, tab, bug)
            ps == Passes(b.bs.T, tab, 1, 0, bug) IN
-       IF ps.res # "ok" THEN [ns |-> {}, calls |-> <<>>, res |-> ps.res]
+       IF ps.res # "ok" THEN [ns |-> {}, calls |-> <<>>, passes |-> Append(np, ps.n), res |-> ps.res]
        ELSE ParseFrom(ps.T, toks, b.next, tab + 1,
-                      calls \o (IF bug = "CallsInFirstPass" THEN early ELSE CallsOfTable(ps.T, tab, bug)), bug)
-Parse(toks, bug) == ParseFrom(T0, toks, 1, 1, <<>>, bug)
+                      calls \o (IF bug = "CallsInFirstPass" THEN early ELSE CallsOfTable(ps.T, tab, bug)), Append(np, ps.n), bug)
+\* [ns, calls, passes (per table)] (+ res when the design rejects the program)
+Parse(toks, bug) == ParseFrom(T0, toks, 1, 1, <<>>, <<>>, bug)
 ====
